@@ -211,6 +211,18 @@ StrictErr(t, o) ==
   CASE o.op = "slice" -> StrictSliceErr(t, o.items)
     [] OTHER -> FALSE
 
+\* IMPLEMENTATION-SHAPED (not from the docs): calls the reference model defines but the current
+\* code answers with a panic.  slice_copy with a negative-step range whose start lies before
+\* the first element (start <= -size-1, which includes every start on a dimension of size 0):
+\* SliceRange::index_range computes `dim_size - 1 - resolved.start` in usize with
+\* resolved.start = dim_size; the subtraction underflows and trips `assert!(start <=
+\* isize::MAX)` in IndexRange::new (NumPy returns an empty result).  An error is permitted by
+\* the C09 statement; listing it here keeps DRIFT for deviations from the transcribed behaviour.
+ImplErr(t, o) ==
+  /\ o.op = "slice_copy" /\ ASliceOk(t, o.items)
+  /\ \E d \in 1..Len(o.items) :
+       ~o.items[d].idx /\ o.items[d].step < 0 /\ NpStart(o.items[d], t.shape[d]) = 0 - 1
+
 \* does the logged result (shape, data) conform to the model for op o applied to t?
 Conforms(t, o, shape, data) ==
   IF o.op = "merge_axes" THEN data = t.data /\ IsMergeOf(shape, t.shape)
